@@ -523,4 +523,93 @@ theorem skipInstance_not_before_first_semi (pre a b : List Byte) (sk cm : Bool) 
   have hLl : L.length = a.length + 1 + b.length := by rw [← hL]; simp; omega
   omega
 
+/-! ### … and twice: the end of the next record -/
+
+theorem drop_tail (a b : List Byte) (x : Byte) (k : Nat) (hk : a.length + 1 ≤ k) :
+    (a ++ x :: b).drop k = b.drop (k - (a.length + 1)) := by
+  have e : a ++ x :: b = (a ++ [x]) ++ b := by simp
+  have hl : (a ++ [x]).length = a.length + 1 := by simp
+  rw [e, List.drop_append, hl]
+  have : (a ++ [x]).drop k = [] := List.drop_eq_nil_of_le (by omega)
+  rw [this]; simp
+
+/-- a successful `SkipInstance` on a good stream leaves a good stream whose rest is not longer -/
+theorem skipInstance_rest_le (cm : Bool) (iters F : Nat) (s : IS) (rs : LoopRes) (hg : s.good = true) (hF : s.rest.length + 2 ≤ F)
+    (h : skipInstance cm iters F s = .ok rs) (hsev : rs.sev = sevNull) :
+    rs.s.good = true ∧ rs.s.rest.length + 1 ≤ s.rest.length := by
+  obtain ⟨ps, hp, hg'⟩ := scanUntil_endsBehind chSemi cm iters F s 0 0 0 rs (by decide) h hsev
+  have hsm : s.m ≤ s.rest.length + 1 := by unfold IS.m; split <;> omega
+  have hstrict := scanUntil_strict iters chSemi cm iters (Nat.le_refl _) F s 0 0 0 (by omega) hg rs h
+  have hrf : rs.s.fail = false := by simp [IS.good] at hg'; exact hg'.2
+  have hrm : rs.s.m = rs.s.rest.length + 1 := by simp [IS.m, hrf]
+  exact ⟨hg', by rcases hstrict with hh | hh <;> omega⟩
+
+/-- the general form of `skipInstance_not_before_first_semi`: any fuel that suffices, and the rest as a suffix of what follows
+the first `;` -/
+theorem skipInstance_after_first_semi (pre a b : List Byte) (sk cm : Bool) (iters F : Nat) (rs : LoopRes)
+    (ha : ∀ y ∈ a, y ≠ chSemi) (hF : (a ++ chSemi :: b).length + 2 ≤ F)
+    (h : skipInstance cm iters F ⟨pre, a ++ chSemi :: b, false, false, sk⟩ = .ok rs) (hsev : rs.sev = sevNull) :
+    rs.s.good = true ∧ ∃ j, rs.s.rest = b.drop j := by
+  generalize hL : a ++ chSemi :: b = L at h hF
+  obtain ⟨ps, hp, hg⟩ := scanUntil_endsBehind chSemi cm iters F _ 0 0 0 rs (by decide) h hsev
+  have hw := skipInstance_keeps cm iters F _ rs h
+  obtain ⟨_, hlt⟩ := skipInstance_rest_le cm iters F ⟨pre, L, false, false, sk⟩ rs (by simp [IS.good]) hF h hsev
+  simp only [] at hlt
+  obtain ⟨k0, hk0⟩ := suffix_of_whole (s := ⟨pre, L, false, false, sk⟩) hw (by simp only []; omega)
+  simp only [] at hk0
+  have hk : rs.s.rest = L.drop (L.length - rs.s.rest.length) := by
+    by_cases hle : k0 ≤ L.length
+    · have : rs.s.rest.length = L.length - k0 := by rw [hk0]; simp
+      have : L.length - rs.s.rest.length = k0 := by omega
+      rw [this]; exact hk0
+    · have h0 : rs.s.rest = [] := by rw [hk0]; exact List.drop_eq_nil_of_le (by omega)
+      rw [h0]; simp
+  generalize hkk : L.length - rs.s.rest.length = k at hk
+  have hk1 : 1 ≤ k := by omega
+  have heq : pre.reverse ++ L.take k = ps.reverse ++ [chSemi] := by
+    have e1 : pre.reverse ++ L = ps.reverse ++ chSemi :: rs.s.rest := by
+      have := hw
+      simp only [IS.whole, hp] at this
+      simp at this
+      exact this.symm
+    have e2 : (pre.reverse ++ L.take k) ++ L.drop k = (ps.reverse ++ [chSemi]) ++ L.drop k := by
+      rw [List.append_assoc, List.take_append_drop, e1, hk]
+      simp
+    exact List.append_cancel_right e2
+  rw [← hL] at heq
+  have hka := drop_after_first k ha hk1 heq
+  refine ⟨hg, k - (a.length + 1), ?_⟩
+  rw [hk, ← hL]
+  exact drop_tail a b chSemi k hka
+
+/-- `SkipInstance` twice: with the first `;` behind `a` and the second behind `a2`, two successful scans leave at most what
+follows the second `;` -/
+theorem skipInstance_twice (pre a a2 b : List Byte) (sk cm : Bool) (iters F : Nat) (rs rs2 : LoopRes)
+    (ha : ∀ y ∈ a, y ≠ chSemi) (ha2 : ∀ y ∈ a2, y ≠ chSemi) (hF : (a ++ chSemi :: (a2 ++ chSemi :: b)).length + 2 ≤ F)
+    (h1 : skipInstance cm iters F ⟨pre, a ++ chSemi :: (a2 ++ chSemi :: b), false, false, sk⟩ = .ok rs) (hs1 : rs.sev = sevNull)
+    (h2 : skipInstance cm iters F rs.s = .ok rs2) (hs2 : rs2.sev = sevNull) :
+    rs2.s.good = true ∧ rs2.s.rest.length ≤ b.length := by
+  obtain ⟨hg1, j, hj⟩ := skipInstance_after_first_semi pre a (a2 ++ chSemi :: b) sk cm iters F rs ha hF h1 hs1
+  have hlen1 : rs.s.rest.length ≤ (a2 ++ chSemi :: b).length := by rw [hj]; simp
+  have hFl : (a ++ chSemi :: (a2 ++ chSemi :: b)).length = a.length + 1 + (a2 ++ chSemi :: b).length := by simp; omega
+  by_cases hja : j ≤ a2.length
+  · -- the second scan starts before the second `;`
+    generalize rs.s = t at hg1 hj hlen1 h2
+    obtain ⟨pre2, rest2, eof2, fail2, sk2⟩ := t
+    simp [IS.good] at hg1
+    obtain ⟨rfl, rfl⟩ := hg1
+    simp only [] at hj hlen1 h2
+    have hr2 : rest2 = a2.drop j ++ chSemi :: b := by rw [hj, List.drop_append_of_le_length hja]
+    subst hr2
+    obtain ⟨hg2, j2, hj2⟩ := skipInstance_after_first_semi pre2 (a2.drop j) b sk2 cm iters F rs2
+      (fun y hy => ha2 y (List.mem_of_mem_drop hy)) (by omega) h2 hs2
+    exact ⟨hg2, by rw [hj2]; simp⟩
+  · -- the first scan already ended behind the second `;`
+    have hlen : rs.s.rest.length ≤ b.length := by
+      rw [hj]
+      simp
+      omega
+    obtain ⟨hg2, hl2⟩ := skipInstance_rest_le cm iters F rs.s rs2 hg1 (by omega) h2 hs2
+    exact ⟨hg2, by omega⟩
+
 end StepModel.P21Safe
